@@ -34,6 +34,59 @@ class CallTarget:
                                         " ext=%s" % self.ext if self.ext else "")
 
 
+def arity_error(prog: Program, res: "Resolver", call: ast.Call, fn: FuncInfo) -> Optional[str]:
+    """Why the call raises TypeError before the callee runs (missing / surplus / unknown arguments), for calls that
+    name a package class or module-level function directly; None when the arguments fit or the callee is not certain."""
+    if any(isinstance(a, ast.Starred) for a in call.args) or any(k.arg is None for k in call.keywords):
+        return None
+    f = call.func
+    if not isinstance(f, ast.Name):
+        return None
+    if f.id in res.local_types(fn):
+        return None          # a local of that name shadows the module binding
+    b = prog.lookup(fn.module, f.id)
+    if b is None:
+        return None
+    skip = 0
+    if b[0] == "class":
+        if prog.is_enum(b[1]) or any(m in c.methods for c in prog.mro(b[1]) if isinstance(c, ClassInfo) for m in ("__new__", "__call__")) \
+                or b[1].node.decorator_list or any(k for k in b[1].node.keywords):
+            return None
+        target = prog.find_method(b[1], "__init__")
+        skip = 1
+        what = "%s()" % b[1].name
+    elif b[0] == "func":
+        target = b[1]
+        what = "%s()" % b[1].short
+        if target.node.decorator_list:
+            return None
+    else:
+        return None
+    if target is None or target.is_lambda:
+        return None
+    a = target.node.args
+    allpos = a.posonlyargs + a.args
+    nreq = len(allpos) - len(a.defaults)
+    pos = allpos[skip:]
+    required = allpos[skip:max(nreq, skip)]
+    npos = len(call.args)
+    kw = [k.arg for k in call.keywords]
+    if npos > len(pos) and a.vararg is None:
+        return "%s takes %d positional argument(s) but %d are given" % (what, len(pos), npos)
+    missing = [p_.arg for i, p_ in enumerate(required) if i >= npos and p_.arg not in kw]
+    missing += [p_.arg for p_, d in zip(a.kwonlyargs, a.kw_defaults) if d is None and p_.arg not in kw]
+    if missing:
+        return "%s is called without its required argument%s %s" % (what, "s" if len(missing) > 1 else "", ", ".join(missing))
+    names = {p_.arg for p_ in a.args[skip if not a.posonlyargs else 0:]} | {p_.arg for p_ in a.kwonlyargs}
+    unknown = [k for k in kw if k not in names]
+    if unknown and a.kwarg is None:
+        return "%s got an unexpected keyword argument %s" % (what, unknown[0])
+    dup = [p_.arg for i, p_ in enumerate(pos) if i < npos and p_.arg in kw]
+    if dup:
+        return "%s got multiple values for argument %s" % (what, dup[0])
+    return None
+
+
 class Resolver:
     def __init__(self, prog: Program):
         self.prog = prog
